@@ -1195,6 +1195,217 @@ def run_malformed(ctx, env):
             ctx.fail('C09:fractional_abundance:raised-%s:control' % st, 'well-formed input rejected (%s): %s' % (what, r), dict(kind='malformed', what=what))
 
 
+def run_malformed_density(ctx, env, n):
+    """round 6 — K stream `err-fd`: the normalisation ladder of `from_elementdensity` (model `callFromDensity`): every one of
+    (element_density, n_e, T_e, donor density) independently a scalar, an array (of the common or of another length), a
+    `Function1D` (with / without / with a mismatching free_variable) or absent (donor); about half of the cases are
+    well-formed.  Compared: raises / returns, and the shape of the returned profile."""
+    rng = ctx.rng
+    ib = env.ib
+    H = env.hydrogen
+    for it in range(n):
+        case = gen_point_case(rng, Z=2)
+        case.update(p=0.0, q=0.0, donor=True, dq=0)
+        head = 'pfd 2 1 %s %s %s' % (f2b(0.0), f2b(0.0), fs(case['s']) + ' ' + fs(case['a']) + ' ' + fs(c_eff(case)))
+        npts = rng.randrange(1, 6)
+        corrupt = (it % 2 == 1)
+        fvkind = ['none', 'ok', 'ok', 'short'][rng.randrange(0, 4)] if (corrupt or rng.random() < 0.5) else 'ok'
+        if not corrupt and fvkind == 'short':
+            fvkind = 'ok'
+        xs = np.array(sorted(rng.uniform(0.05, 0.95) for _ in range(npts + 3)))
+        fvx = {'none': None, 'ok': xs[:npts], 'short': xs[:npts + 1 + rng.randrange(0, 2)]}[fvkind]
+        fvt = 'fv0' if fvx is None else 'fv1 %d %s' % (len(fvx), fs(fvx))
+        bad_slot = rng.randrange(0, 4) if corrupt else -1
+        toks, vals, kinds = [], [], []
+        for slot, scale in enumerate((1e17, 1e19, 50.0, 1e18)):       # element density, n_e, T_e, donor density
+            kinds_ok = ['arr', 'arr', 'fn'] if fvkind == 'ok' else ['arr']
+            if npts == 1:
+                kinds_ok = kinds_ok + ['scalar', 'scalar']
+            if slot == 3:
+                kinds_ok = kinds_ok + ['absent']
+            kind = kinds_ok[rng.randrange(len(kinds_ok))]
+            if slot == bad_slot:
+                kind = ['arr-other', 'scalar', 'fn', 'arr-other'][rng.randrange(0, 4)]
+            if kind == 'absent':
+                toks.append('dnone'); vals.append(None)
+            elif kind == 'scalar':
+                v = float(scale * rng.uniform(1.0, 3.0))
+                toks.append('s %s' % f2b(v)); vals.append(v)
+            elif kind == 'fn':
+                a, b = float(scale * rng.uniform(1.0, 2.0)), float(scale * rng.uniform(0.0, 1.0))
+                toks.append('f1 %s %s' % (f2b(a), f2b(b))); vals.append(env.PF1(lambda x, a=a, b=b: a + b * x))
+            else:
+                m = npts if kind == 'arr' else npts + 1 + rng.randrange(0, 2)
+                v = np.array([scale * rng.uniform(1.0, 3.0) for _ in range(m)])
+                toks.append('a1 %d %s' % (m, fs(v))); vals.append(v)
+            kinds.append(kind)
+        line = '%s %s %s %s %s %s' % (head, fvt, toks[1], toks[2], toks[3], toks[0])
+        o = ctx.driver([line])[0]
+        if o.startswith('bad'):
+            raise RuntimeError('driver could not parse err-fd line: %s -> %s' % (line[:200], o))
+        kw = dict(tcx_donor=H, tcx_donor_n=vals[3])
+        if fvx is not None:
+            kw['free_variable'] = np.array(fvx)
+        st, r = guarded(ib.from_elementdensity, env.Mock(case), env.elements[1], vals[0], vals[1], vals[2], **kw)
+        what = 'fv=%s %s' % (fvkind, '/'.join(kinds))
+        ctx.case(key=('malformed-fd', what, npts), sample=dict(stream='err-fd', what=what, n=npts, model=o[:20], implementation=st))
+        ctx.traces += 1
+        ctx.count('K:err-fd')
+        ctx.count('err-fd:' + ('rejected' if o == 'err' else 'accepted'))
+        if st in ('timeout', 'timeout-lsq'):
+            continue
+        model_raises = (o == 'err')
+        detail = None
+        if model_raises != (st != 'ok'):
+            detail = dict(what=what, n=npts, model=o[:60], implementation=st, message=str(r)[:200])
+        elif st == 'ok':
+            t = o.split()
+            shape = tuple(int(x) for x in t[1:1 + int(t[0])])
+            got = sorted((k, tuple(np.shape(v))) for k, v in r.items())        # {charge: profile}
+            if got != [(k, shape) for k in range(3)]:
+                detail = dict(what=what, n=npts, model_shape=shape, implementation_shapes=got)
+        if detail is not None:
+            ctx.disagreements += 1
+            ctx.broke('correspondence', 'C09 stream err-fd', detail)
+        if not corrupt and st not in ('ok',):
+            ctx.fail('C09:from_elementdensity:raised-%s:control' % st, 'well-formed input rejected (%s): %s' % (what, r),
+                     dict(kind='malformed-fd', what=what))
+
+
+# ---------------------------------------------------------------------------------------------------------------
+# round 6 — memory layouts: the same values as F-ordered / transposed-view / strided / negative-stride / read-only arrays
+# (S only, no model: referenced to the C-contiguous call and to the balance equations per point)
+# ---------------------------------------------------------------------------------------------------------------
+LAYOUTS = ('F', 'Tview', 'strided', 'reversed', 'readonly', 'F-readonly')
+
+
+def relayout(a, layout):
+    """the same values (same shape, same dtype) in another memory layout; the gaps of the strided form hold NaN"""
+    a = np.array(a)
+    if layout == 'C':
+        return np.ascontiguousarray(a)
+    if layout in ('F', 'F-readonly'):
+        b = np.asfortranarray(a) if a.ndim > 1 else a[::-1].copy()[::-1]
+    elif layout == 'Tview':
+        b = np.ascontiguousarray(a.T).T if a.ndim > 1 else a[::-1].copy()[::-1]
+    elif layout == 'strided':
+        big = np.full(tuple(2 * n + 1 for n in a.shape), np.nan, dtype=a.dtype)
+        sl = tuple(slice(1, None, 2) for _ in a.shape)
+        big[sl] = a
+        b = big[sl]
+    elif layout == 'reversed':
+        sl = tuple(slice(None, None, -1) for _ in a.shape)
+        b = np.ascontiguousarray(a[sl])[sl]
+    elif layout == 'readonly':
+        b = np.ascontiguousarray(a)
+    else:
+        raise ValueError(layout)
+    if layout.endswith('readonly'):
+        b.setflags(write=False)
+    assert b.shape == a.shape and np.array_equal(b, a)
+    return b
+
+
+def run_layouts(ctx, env, n):
+    rng = ctx.rng
+    ib = env.ib
+    for it in range(n):
+        case = gen_point_case(rng, Z=rng.randint(1, 4))
+        case.update(p=rng.uniform(0.5, 2) / 1e4, q=rng.uniform(0.5, 2) / 1e21, donor=(it % 4 != 3), isotope=False, dq=rng.choice([0, 1]))
+        Z = case['Z']
+        dim = 1 if it % 5 == 4 else 2
+        shape = (rng.randint(2, 5),) if dim == 1 else ((rng.randint(2, 4),) * 2 if it % 2 else (rng.randint(2, 4), rng.randint(2, 4)))
+        npts = int(np.prod(shape))
+        ne0 = 10 ** rng.uniform(18, 20.3)
+
+        def field(base, lo, hi):
+            return np.array([base * rng.uniform(lo, hi) for _ in range(npts)]).reshape(shape)
+        ne, te, dens = field(ne0, 0.4, 2.5), field(10 ** rng.uniform(0.5, 3.5), 0.4, 2.5), field(case['dens'], 0.4, 2.5)
+        nd = ne * field(1.0, 0.0, 0.3)
+        donor = case['donor']
+        species = [np.array([ne0 * rng.uniform(0, 0.02) for _ in range(k * npts)]).reshape((k,) + shape)
+                   for k in [rng.randint(1, 4) for _ in range(rng.randint(1, 2))]]
+        same = rng.random() < 0.6
+        lay0 = LAYOUTS[it % len(LAYOUTS)]
+        pick = (lambda: lay0) if same else (lambda: rng.choice(LAYOUTS + ('C',)))
+        lays = dict(ne=lay0, te=pick(), nd=pick(), dens=pick(), species=[pick() for _ in species])
+        kw = dict(tcx_donor=env.donor(case), tcx_donor_charge=case['dq'])
+        ad, el = env.Mock(case), env.element(case)
+        entries = (
+            ('fractional_abundance', lambda L: (ib.fractional_abundance, (ad, el, L('ne', ne), L('te', te)))),
+            ('from_elementdensity', lambda L: (ib.from_elementdensity, (ad, el, L('dens', dens), L('ne', ne), L('te', te)))),
+            ('match_plasma_neutrality', lambda L: (ib.match_plasma_neutrality, (ad, el, [L(('species', i), sp) for i, sp in enumerate(species)], L('ne', ne), L('te', te)))),
+        )
+        for name, build in entries:
+            def layC(key, a):
+                return relayout(a, 'C')
+
+            def layX(key, a):
+                return relayout(a, lays['species'][key[1]] if isinstance(key, tuple) else lays[key])
+            res = {}
+            for tag, L in (('C', layC), ('X', layX)):
+                f, args = build(L)
+                k2 = dict(kw)
+                if donor:
+                    k2['tcx_donor_n'] = L('nd', nd)
+                held = [a for a in args[2:]] + [k2.get('tcx_donor_n')]
+                before = [snapshot(a) for a in held]
+                res[tag] = guarded(f, *args, **k2)
+                if res[tag][0] == 'ok' and [snapshot(a) for a in held] != before:
+                    ctx.fail('C09:%s:modifies-its-inputs' % name, '%s changed an input array (layouts %r)' % (name, lays),
+                             dict(kind='layout', entry=name, layouts=lays, case=case, shape=list(shape)))
+            desc = 'layouts %s, shape %r, Z=%d, donor=%s' % (json.dumps(lays), shape, Z, donor)
+            ctx.case(key=('layout', name, lay0, dim, same), sample=dict(stream='layout', entry=name, layouts=lays, shape=list(shape)))
+            ctx.count('layout:%s:%s' % (name, lay0 if same else 'mixed'))
+            (stc, rc), (stx, rx) = res['C'], res['X']
+            if 'timeout' in stc or 'timeout' in stx:
+                ctx.count('layout:timeout')
+                continue
+            rp = dict(kind='layout', entry=name, layouts=lays, case=case, shape=list(shape))
+            if stc != 'ok':
+                ctx.fail('C09:%s:raised-%s' % (name, stc), '%s raised on C-contiguous arrays (%s): %s' % (name, desc, rc), rp)
+                continue
+            if stx != 'ok':
+                ctx.fail('C09:%s:raised-%s:memory-layout' % (name, stx),
+                         '%s accepts the profile as C-contiguous arrays but raises on the same values in another memory layout (%s): %s' % (name, desc, rx), rp)
+                continue
+            bad = None
+            for idx in np.ndindex(*shape):
+                try:
+                    vc = [float(np.asarray(rc[z])[idx]) for z in range(Z + 1)]
+                    vx = [float(np.asarray(rx[z])[idx]) for z in range(Z + 1)]
+                except Exception as e:  # noqa  -- wrong container / shape of the result
+                    bad = ('result-shape', 'result is not {charge: array of shape %r}: %s' % (shape, e))
+                    break
+                # the property at the (n_e, T_e, n_D) of *this* index, on the numbers returned for the non-contiguous input
+                S, A, C = rates_at(case, float(ne[idx]), float(te[idx]))
+                d = float(nd[idx] / ne[idx]) if donor else 0.0
+                tot, totc = sum(vx), sum(vc)
+                if name == 'match_plasma_neutrality':
+                    prob = neutrality_problem([[float(sp[(k,) + idx]) for k in range(sp.shape[0])] for sp in species], float(ne[idx]), vx)
+                    if prob:
+                        bad = ('neutrality', 'at index %r: %s' % (idx, prob))
+                        break
+                if name == 'from_elementdensity' and abs(tot / float(dens[idx]) - 1.0) > S_TOL:
+                    bad = ('total', 'at index %r: densities sum to %r, element density there is %r' % (idx, tot, float(dens[idx])))
+                    break
+                if tot > 0 and totc > 0:
+                    px = [t for t in check_fractions([v / tot for v in vx], S, A, C, d, donor and d > 0) if t[0] == 'balance']
+                    pc_ = [t for t in check_fractions([v / totc for v in vc], S, A, C, d, donor and d > 0) if t[0] == 'balance']
+                    if px and not pc_:       # (a residual shared with the contiguous call is the solver's, reported by the other streams)
+                        bad = ('balance:memory-layout', 'at index %r (n_e=%.4g, T_e=%.4g, n_D=%.4g): %s; the C-contiguous call satisfies it'
+                               % (idx, ne[idx], te[idx], nd[idx] if donor else 0.0, px[0][1]))
+                        break
+                scale = max(abs(v) for v in vc) or 1.0
+                dev = max(abs(a - b) for a, b in zip(vc, vx)) / scale
+                if not dev <= 1e-9:
+                    bad = ('differs-from-contiguous-input', 'at index %r (n_e=%.4g, T_e=%.4g): %r with C-contiguous arrays, %r with the same values in '
+                           'another layout (relative difference %.3g)' % (idx, ne[idx], te[idx], vc, vx, dev))
+                    break
+            if bad:
+                ctx.fail('C09:%s:%s' % (name, bad[0]), '%s, %s: %s' % (name, desc, bad[1]), rp)
+
+
 # ---------------------------------------------------------------------------------------------------------------
 # neutrality matching at profile level, interpolators and equilibrium maps (S: entry points agree)
 # ---------------------------------------------------------------------------------------------------------------
@@ -1832,6 +2043,8 @@ def run(ctx):
     # 6. profile stream, malformed combinations, derived entry points
     run_profiles(ctx, env, ctx.n(120, 4000))
     run_malformed(ctx, env)
+    run_malformed_density(ctx, env, ctx.n(40, 400))
+    run_layouts(ctx, env, ctx.n(36, 600))
     run_entry_agreement(ctx, env, ctx.n(24, 300))
     run_extreme(ctx, env, ctx.n(80, 2000))
     run_sequences(ctx, env, ctx.n(12, 150))
